@@ -56,3 +56,48 @@ MUTANTS += [
     dict(name="c06_sparse_skips_last_active", prop="C06", file=VOR,
          old="                self.new_dist_[active_points] = (\n                    self.norms_[active_points]", new="                active_points = active_points[:-1] if len(active_points) > 3 else active_points\n                self.new_dist_[active_points] = (\n                    self.norms_[active_points]"),
 ]
+
+ORT = "src/skmatter/utils/_orthogonalizers.py"
+MUTANTS += [
+    # ---------------------------------------------------------------- C07
+    dict(name="c07_modulo_shifted", prop="C07", file=SEL, count=2,
+         old="            if self.n_selected_ % self.recompute_every == 0:", new="            if (self.n_selected_ + 1) % self.recompute_every == 0:"),
+    dict(name="c07_ysample_all_rows", prop="C07", file=SEL,
+         old="                    y_ref=self.y_selected_[: self.n_selected_],\n                    X_ref=self.X_selected_[: self.n_selected_],", new="                    y_ref=self.y_ref_,\n                    X_ref=self.X_ref_,"),
+    dict(name="c07_U_for_features", prop="C07", file=SEL,
+         old='            svd_kwargs["return_singular_vectors"] = "vh"\n            _, _, Vt = scipy.sparse.linalg.svds(X, **svd_kwargs)\n            new_pi = (np.real(Vt) ** 2.0).sum(axis=0)',
+         new='            svd_kwargs["return_singular_vectors"] = "vh"\n            _, _, Vt = scipy.sparse.linalg.svds(X @ X.T @ X, **svd_kwargs)\n            new_pi = (np.real(Vt) ** 2.0).sum(axis=0)'),
+    dict(name="c07_orth_wrong_axis", prop="C07", file=SEL,
+         old="            self.X_current_ = X_orthogonalizer(\n                x1=self.X_current_.T, c=last_selected, tol=self.tolerance\n            ).T\n\n\nclass _PCovCUR",
+         new="            self.X_current_ = X_orthogonalizer(\n                x1=self.X_current_, c=last_selected % self.X_current_.shape[1], tol=self.tolerance\n            )\n\n\nclass _PCovCUR"),
+    dict(name="c07_yfeat_no_update", prop="C07", file=SEL,
+         old="                self.y_current_ = Y_feature_orthogonalizer(\n                    self.y_current_, X=self.X_selected_, tol=self.tolerance\n                )", new="                pass"),
+    dict(name="c07_smallest_eigvecs", prop="C07", file=SEL,
+         old="        U = U[:, np.flip(np.argsort(v))]", new="        U = U[:, np.argsort(v)]"),
+    dict(name="c07_pi_k_minus_one", prop="C07", file=SEL,
+         old="        pi = (np.real(U)[:, : self.k] ** 2.0).sum(axis=1)", new="        pi = (np.real(U)[:, : max(1, self.k - 1)] ** 2.0).sum(axis=1)"),
+    dict(name="c07_mixing_swapped_cov", prop=["C07", "C02"], file=PU,
+         old="        C += (1 - mixing) * np.array(C_Y @ C_Y.T, dtype=np.float64)", new="        C += (mixing) * np.array(C_Y @ C_Y.T, dtype=np.float64)"),
+    dict(name="c07_orthogonalizer_unnormalised", prop="C07", file=ORT,
+         old="            col = np.divide(col, np.linalg.norm(col, axis=0))", new="            col = np.divide(col, np.linalg.norm(col, axis=0) ** 0.5)"),
+]
+
+MUTANTS += [
+    # ---------------------------------------------------------------- C08
+    dict(name="c08_prefix_not_copied", prop=["C08", "C01"], file=SEL,
+         old="        self.selected_idx_[: self.n_selected_] = old_idx", new="        self.selected_idx_[: self.n_selected_ - 1] = old_idx[:-1]"),
+    dict(name="c08_iterations_not_reduced", prop=["C08", "C01"], file=SEL,
+         old="        n_iterations -= self.n_selected_", new="        n_iterations -= 0 if warm_start and self.n_selected_ == 2 else self.n_selected_"),
+    dict(name="c08_cur_warm_reorth_skipped_pi_stale", prop="C08", file=SEL,
+         old="        self.pi_ = self._compute_pi(self.X_current_)\n        self.pi_[self.selected_idx_[: self.n_selected_]] = 0.0\n\n        super()._continue_greedy_search(X, y, n_to_select)",
+         new="        self.pi_ = self._compute_pi(X)\n        self.pi_[self.selected_idx_[: self.n_selected_]] = 0.0\n\n        super()._continue_greedy_search(X, y, n_to_select)"),
+    dict(name="c08_voronoi_warm_resets_cells", prop=["C08", "C06"], file=VOR,
+         old="        n_pad = n_to_select - self.n_selected_\n", new="        n_pad = n_to_select - self.n_selected_\n        self.vlocation_of_idx[:] = 0\n"),
+    dict(name="c08_fps_warm_table_reset", prop="C08", file=SEL,
+         old="        old_idx = self.selected_idx_.copy()\n", new="        old_idx = self.selected_idx_.copy()\n        if hasattr(self, 'hausdorff_') and n_to_select - self.n_selected_ > 2:\n            self.hausdorff_ = np.minimum(self.hausdorff_, np.median(self.hausdorff_))\n"),
+    dict(name="c08_float_request_rounds_up", prop=["C08", "C01"], file=SEL,
+         old="            n_iterations = int(n_to_select_from * self.n_to_select)", new="            n_iterations = int(round(n_to_select_from * self.n_to_select))"),
+    dict(name="c08_pcovcur_warm_y_not_restored", prop="C08", file=SEL,
+         old="        self.pi_ = self._compute_pi(self.X_current_, self.y_current_)\n        self.pi_[self.selected_idx_[: self.n_selected_]] = 0.0\n\n        super()._continue_greedy_search",
+         new="        self.pi_ = self._compute_pi(self.X_current_, self.y_ref_)\n        self.pi_[self.selected_idx_[: self.n_selected_]] = 0.0\n\n        super()._continue_greedy_search"),
+]
